@@ -362,6 +362,29 @@ func runCheck(o checkOpts) int {
 		par = 8
 	}
 	dischargeAll(selected, rc, par)
+	// An obligation no back end decided within the limit gets a second, longer
+	// attempt with every back end before it is reported: a loaded machine must
+	// not turn a slow proof into an alarm.
+	var again []*Obligation
+	for _, ob := range selected {
+		if ob.Verdict != "sat" && ob.Verdict != "unsat" && ob.Kind != "cover" {
+			again = append(again, ob)
+		}
+	}
+	if len(again) > 0 && o.tier != "thorough" {
+		rc2 := rc
+		rc2.timeoutS = rc.timeoutS * 4
+		rc2.late = nil
+		rc2.idxBase = len(selected)
+		first := map[*Obligation]float64{}
+		for _, ob := range again {
+			first[ob] = ob.TimeS
+		}
+		dischargeAll(again, rc2, 4)
+		for _, ob := range again {
+			ob.TimeS += first[ob]
+		}
+	}
 	solveS := time.Since(solveStart).Seconds()
 
 	known := loadKnown()
